@@ -4,6 +4,7 @@ CONSTANTS
   LinkStyle = "code"
   MaxTok = 3
   Part = "links"
+  ListStyle = "versioned"
   Chains = FALSE
 INVARIANT LinksRefineP
 CHECK_DEADLOCK FALSE
